@@ -1328,6 +1328,11 @@ class Verifier:
         return [Outcome(NORMAL, st)]
 
     def st_FunctionDef(self, s, st):
+        ab = getattr(self.c, 'abstract_locals', None) or {}
+        if s.name in ab:
+            # a nested function that is under its own contract: callers see that contract, not the body
+            st.env[s.name] = MFn('spec', s.name, spec=ab[s.name])
+            return [Outcome(NORMAL, st)]
         st.env[s.name] = MFn('inline', s.name, node=s, frame=st)
         return [Outcome(NORMAL, st)]
 
